@@ -81,6 +81,20 @@ theorem cherrypick_congr (src src' : J) : ∀ (fs : List (List String)) (dst : J
       | error e => rfl
     | error e => cases e <;> simp [ih]
 
+theorem cherrypickSkip_congr (src src' : J) : ∀ (fs : List (List String)) (dst : J),
+    (∀ f, f ∈ fs → resolveE src f = resolveE src' f) → cherrypickSkip src dst fs = cherrypickSkip src' dst fs
+  | [], _, _ => rfl
+  | f :: fs, dst, h => by
+    have h1 : cherrypick src dst [f] = cherrypick src' dst [f] :=
+      cherrypick_congr src src' [f] dst (fun g hg => by
+        have : g = f := by simpa using hg
+        subst this; exact h g List.mem_cons_self)
+    have ih := fun d => cherrypickSkip_congr src src' fs d (fun g hg => h g (List.mem_cons_of_mem _ hg))
+    simp only [cherrypickSkip, h1]
+    cases cherrypick src' dst [f] with
+    | ok d => simp only [ih]
+    | error e => cases e <;> simp only [ih]
+
 /-- what `build` reads of the body. -/
 structure SameView (extra : List (List String)) (kvs kvs' : Kvs) : Prop where
   payload : erase4 kvs = erase4 kvs'
@@ -113,8 +127,8 @@ theorem baseBuild_congr {extra : List (List String)} {kvs kvs' : Kvs} (ig : List
   have h1 : ∀ dst, cherrypick (.obj kvs) dst [["metadata", "labels"], ["metadata", "annotations"]] =
       cherrypick (.obj kvs') dst [["metadata", "labels"], ["metadata", "annotations"]] :=
     fun dst => cherrypick_congr _ _ _ dst (fun f hm => hf f (List.mem_append_left _ hm))
-  have h2 : ∀ dst, cherrypick (.obj kvs) dst extra = cherrypick (.obj kvs') dst extra :=
-    fun dst => cherrypick_congr _ _ _ dst (fun f hm => hf f (List.mem_append_right _ hm))
+  have h2 : ∀ dst, cherrypickSkip (.obj kvs) dst extra = cherrypickSkip (.obj kvs') dst extra :=
+    fun dst => cherrypickSkip_congr _ _ _ dst (fun f hm => hf f (List.mem_append_right _ hm))
   have hp' : erase "status" (erase "metadata" (erase "kind" (erase "apiVersion" kvs))) =
       erase "status" (erase "metadata" (erase "kind" (erase "apiVersion" kvs'))) := hp
   simp only [baseBuild, hp', h1, h2]
